@@ -633,11 +633,14 @@ C16_VARIANTS = [
 ]
 
 
-def c16_check(variant, recs, t, wd):
+def c16_check(variant, recs, t, wd, final_newline=True):
     """runs one CLI case; returns None if fine, else (key, message)"""
     name, kk, ww = variant
     inp = os.path.join(wd, "in.fa")
-    open(inp, "wb").write(fasta_bytes(recs))
+    data = fasta_bytes(recs)
+    if not final_newline and data.endswith(b"\n"):
+        data = data[:-1]
+    open(inp, "wb").write(data)
     out = os.path.join(wd, "out")
     stdin = None
     odelim, oheader = b" ", False
@@ -653,7 +656,7 @@ def c16_check(variant, recs, t, wd):
         args = ["comp", "oligo", "-c", "-i", inp, "-o", out, "-k", str(kk)]
     elif name == "oligo-stdin":
         args = ["comp", "oligo", "-i", "-", "-o", out, "-k", str(kk)]
-        stdin = fasta_bytes(recs)
+        stdin = data
     elif name == "cgr":
         args = ["comp", "cgr", "-i", inp, "-o", out, "-v", "16"]
     elif name == "kcgr":
@@ -777,21 +780,24 @@ def c16(tier):
             lists += [(a, b, c) for a in names for b in names for c in names]
         for l in lists:
             for t in (1, 4):
-                cases.append((variant, l, t))
+                cases.append((variant, l, t, True))
+            # the same input without its final line feed (the last record then ends at end of file)
+            if l and name in ("oligo", "oligo-c", "oligo-stdin", "cgr", "kcgr", "cov", "s2m-w9", "m2s-w0", "ctr"):
+                cases.append((variant, l, 2, False))
 
     def do(case):
-        variant, l, t = case
+        variant, l, t, final_nl = case
         sh = shapes_for(variant[1], variant[2])
         recs = [sh[x] for x in l]
         wd = fresh_dir("c16")
         try:
-            res = c16_check(variant, recs, t, wd)
+            res = c16_check(variant, recs, t, wd, final_nl)
         except Exception as e:  # unparsable output etc.
             res = ("unparsable-output", "%s %r threads=%d: %s: %s" % (variant[0], recs, t, type(e).__name__, e))
         rep.ev(1, 1)
         rep.outcome("%s:%s" % (variant[0], "ok" if res is None else res[0]))
         if res is not None:
-            rep.violation(res[0], sum(len(r) + 1 for r in recs) + 10 * len(recs), res[1], "c16", {"variant": list(variant), "shapes": list(l), "t": t})
+            rep.violation(res[0], sum(len(r) + 1 for r in recs) + 10 * len(recs), res[1] + ("" if final_nl else " [input without final line feed]"), "c16", {"variant": list(variant), "shapes": list(l), "t": t, "final_newline": final_nl})
         shutil.rmtree(wd, ignore_errors=True)
 
     pmap(do, cases)
